@@ -187,23 +187,27 @@ def run_model(runner: str, lines: list[str], chunk: int = 4000, procs: int = 8) 
         raise SystemExit(f"model runner {MODELRUN} not built: run setup.sh")
     chunks = [lines[i : i + chunk] for i in range(0, len(lines), chunk)]
     outs: list[list[str] | None] = [None] * len(chunks)
-    running: list[tuple[int, subprocess.Popen, object]] = []
+    running: list = []
 
     def start(ix):
         f = tempfile.TemporaryFile("w+")
         f.write("\n".join(chunks[ix]) + "\n")
         f.seek(0)
-        p = subprocess.Popen([str(MODELRUN)], stdin=f, stdout=subprocess.PIPE, text=True)
-        running.append((ix, p, f))
+        fo = tempfile.TemporaryFile("w+")       # answers go to a file, not a pipe: no child ever waits for the reader
+        p = subprocess.Popen([str(MODELRUN)], stdin=f, stdout=fo, text=True)
+        running.append((ix, p, f, fo))
 
     nxt = 0
     while nxt < len(chunks) or running:
         while nxt < len(chunks) and len(running) < procs:
             start(nxt)
             nxt += 1
-        ix, p, f = running.pop(0)
-        so, _ = p.communicate()
+        ix, p, f, fo = running.pop(0)
+        p.wait()
         f.close()
+        fo.seek(0)
+        so = fo.read()
+        fo.close()
         if p.returncode != 0:
             raise RuntimeError(f"modelrun failed rc={p.returncode}")
         res = so.split("\n")
